@@ -900,13 +900,26 @@ pub fn canonicalize_query_to_string(query_parameters: &HashMap<String, Vec<Strin
         // Don't include the signature itself.
         if key != X_AMZ_SIGNATURE {
             for value in values.iter() {
-                results.push(format!("{}={}", key, value));
+                results.push((key, value));
             }
         }
     }
 
+    // Sort by name and then by value. Sorting the rendered `name=value` strings instead would be wrong: '=' sorts
+    // above characters such as '-' and '.', which would put `a-b=2` in front of `a=1`.
     results.sort_unstable();
-    results.join("&")
+
+    let mut result = String::new();
+    for (key, value) in results {
+        if !result.is_empty() {
+            result.push('&');
+        }
+        result.push_str(key);
+        result.push('=');
+        result.push_str(value);
+    }
+
+    result
 }
 
 /// Normalizes the specified URI path, removing redundant slashes and relative path components (unless performing S3
